@@ -54,6 +54,12 @@ def simplify(run):
     for per in (20, 5, 2):
         if cfg['period'] < per:
             c = copy.deepcopy(run); c['config']['period'] = per; yield c
+    if cfg.get('give_gdown4'):
+        c = copy.deepcopy(run); c['config']['give_gdown4'] = False; yield c
+    if cfg.get('fluid_alt', 'none') != 'none':
+        c = copy.deepcopy(run); c['config']['fluid_alt'] = 'none'; yield c
+    for k in list(cfg.get('extra_inputs', [])):
+        c = copy.deepcopy(run); c['config']['extra_inputs'].remove(k); yield c
     if cfg['cls'] == 'OFF':
         for k in list(cfg['fluid']):
             c = copy.deepcopy(run); c['config']['fluid'].remove(k); yield c
